@@ -916,6 +916,42 @@ def run(ctx):
             ctx.ob("R08.4", site_key(ai, "ExpressionAssignUndefined only when allow_undefined"), ok, line_of(c), "guards %s" % [(describe(x), p) for x, p in g if isinstance(x, dict) and x.get("k")])
     ctx.guard("R08.4", r4)
 
+    def r4_strict():
+        # ECMAScript model: `<assign>` to an undeclared location is an error because the script context runs in strict mode; the
+        # declare-if-missing path switches strict mode off for one evaluation. Off and on are paired: the restoring statement stands
+        # in the same block, under the same condition, and no return / `?` lies between the two (otherwise a failed evaluation leaves
+        # the session in sloppy mode and later assigns to undeclared locations stop raising error.execution).
+        name = "datamodel::ecma_script::ECMAScriptDatamodel::assign_internal"
+        if not F.has_fn(name):
+            return
+        fn = F.fn(name)
+        calls = [c for c in fn.walk() if c.get("k") == "mcall" and c["m"] == "strict" and "Context" in (c.get("p") or "") and c["a"]]
+        off = [c for c in calls if const_eval(c["a"][0]) is False]
+        on = [c for c in calls if const_eval(c["a"][0]) is True]
+        ctx.exact("R08.4", "strict(false) sites in the ECMAScript assign_internal", len(off), 1)
+        ctx.exact("R08.4", "strict(true) sites in the ECMAScript assign_internal", len(on), 1)
+        if len(off) != 1 or len(on) != 1:
+            return
+        idx4 = hirq.order_index(fn)
+
+        def stmt_of(c):
+            cur = c
+            for anc in fn.ancestors(c):
+                if anc is fn.hir:
+                    return cur
+                cur = anc
+            return None
+        s_off, s_on = stmt_of(off[0]), stmt_of(on[0])
+        same_block = s_off is not None and s_on is not None and s_off is not s_on and idx4[id(s_off)] < idx4[id(s_on)]
+        same_cond = same_block and s_off.get("k") == "if" and s_on.get("k") == "if" and describe(s_off["c"]) == describe(s_on["c"]) and \
+            "e" not in s_off and "e" not in s_on
+        exits = [r for r in fn.walk() if r.get("k") in ("ret", "try") and hirq.enclosing_closure(fn, r) is None and
+                 s_off is not None and s_on is not None and idx4[id(s_off)] < idx4[id(r)] < idx4[id(s_on)]]
+        ctx.ob("R08.4", site_key(fn, "strict mode restored on every path after it was switched off"), same_cond and not exits, line_of(off[0]),
+               "restoring statement later in the function body under the same condition: %s; returns / `?` in between: %s" % (
+                   same_cond, [line_of(r) for r in exits] or "none"))
+    ctx.guard("R08.4", r4_strict)
+
     # ------------------------------------------------------------------------------ R08.5
     ctx.rule("R08.5", "execute_for_each implementations: the body callback is called inside a loop over the collection; in the same iteration and "
                       "before the call the item variable (named by parameter `item`) is set from the loop element and the index variable (named by "
